@@ -5,6 +5,16 @@ ID = "C10"
 COQ_PROOF_TARGETS = ["Props/C10.vo"]
 COQ_MODEL_TARGETS = ["Extract/ExC10.vo"]
 RELEASE_TOO = True
+CLAIM_TEXT = ("Theorems (coq/Props/C10.v, no axioms) prove for every base n, every k and every arrival order of the k consecutive "
+              "CSeq numbers up to the u32 limit that the model of DialogLayer hands each request to the usages exactly once, in "
+              "increasing order, leaving nothing parked, for UAS- and UAC-created dialogs; plus key matching, non-interception, "
+              "isolation of other dialogs, usage-guard and no-overflow lemmas. The model is tied to the code on every run by running "
+              "the extracted model and the real sip-ua crate on the same histories (all permutations up to length 5/7, seeded mixed "
+              "histories) and comparing every delivery; an independent RFC 3261 12.2.2 oracle judges the implementation directly.")
+CLAIM_NOTE = ("Trusted: Coq kernel; hand-written model Model/C10.v (validated only by differential runs, not derived from the Rust "
+              "source); extraction with ExtrOcamlBasic; harness mocks; atomicity of the locked section of DialogLayer::receive. "
+              "Known finding F10c (late lower-CSeq request redelivered) is modelled as coded and lies outside the ordering theorem's "
+              "hypotheses (permutations have no duplicates).")
 TRUSTED = [
     "Coq 8.16.1 kernel (coqc, vm_compute); no axioms (Print Assumptions: closed under the global context)",
     "hand-written Gallina model coq/Model/C10.v of sip-ua/src/dialog/{layer,key}.rs, tied to the code by the correspondence run",
